@@ -115,11 +115,14 @@ func Run(ctx *core.Ctx) {
 		"config-file entries; log level/format/log-http mode; upstream proxy over http or https, site credentials, TLS/MITM/CA data: URIs) run twice with two " +
 		"independent secret assignments. Kind run: driven with GET, CONNECT (intercepted when MITM is on), /configz, a 407 and a 502 exchange, then with " +
 		"GET and CONNECT/intercepted GET once per fault shape of the upstream proxy and of the origin (closed at accept, reset, closed after the request, " +
-		"truncated head, non-HTTP bytes, 407/401/403/502 with and without body, stall, refused). Kind startfail: one thing in the configuration makes the " +
+		"truncated head, non-HTTP bytes, 407/401/403/502 with and without body, stall, refused). Upstream pac: --pac (path, file URL, data: URI, http URL, stdin) instead of " +
+		"--proxy; the script answers PROXY/HTTP/HTTPS/SOCKS5 (scripted proxies, one of them by default: it takes the fault shapes), SOCKS/SOCKS4, unparsable entries, a script " +
+		"error, DIRECT and several entries per target host, --credentials has exact/*:port/host:*/*:* entries for the host:port of all those proxies, and every host class is " +
+		"asked for with each request kind. Kind startfail: one thing in the configuration makes the " +
 		"start-up fail after the values were read (mismatching or non-PEM key material, unparsable PAC, a rejected host/port/scheme after the user:password, " +
 		"duplicate credentials, occupied port). Non-trivial = at least one secret-bearing flag is set and the process served the requests / exited with status 1; " +
 		"distinct = distinct configurations")
-	ctx.Assume("C19: the theorems cover the configuration dump (start-up 'configuration:' lines, /configz), the 'using upstream proxy' line, the cert/key attributes of the debug record 'loading TLS certificate' and the two error texts that render a flag value (rejected flag value, --cacert-file without certificate); every other log line, the request log and the error responses are covered by the search on the running binary only")
+	ctx.Assume("C19: the theorems cover the configuration dump (start-up 'configuration:' lines, /configz), the 'using upstream proxy' line, the cert/key attributes of the debug record 'loading TLS certificate' and the two error texts that render a flag value (rejected flag value, --cacert-file without certificate) and the outcome of pacProxy on the string a PAC script returned (error texts, credentials merged into the selected proxy URL); every other log line, the request log and the error responses are covered by the search on the running binary only")
 	ctx.Assume("C19: the log lines the proxy writes about exchanges that fail because of a fault of the upstream proxy / origin are searched like the start-up log, except the header dumps of --log-http errors for 5xx exchanges (the property covers request log lines of successful exchanges)")
 	ctx.Assume("C19: a secret is searched literally, as base64 (std/url, padded/raw) of the password and of user:password, percent-encoded (query, path, userinfo, all bytes), as Go/JSON string literal, hex, and for data: payloads as fragments and decoded PEM lines; other forms are caught only by the diff of two runs that differ in the secrets alone")
 	ctx.Assume("C19: flag table extracted syntactically (go/ast) from bind/*.go and command/run/*.go of the tree under verification: constructor name and presence of a redactor argument")
@@ -139,6 +142,22 @@ func Run(ctx *core.Ctx) {
 	for i := range cases {
 		cases[i] = genCase(ctx.Rng.Sub(), i)
 	}
+	np := ctx.N(48, 480)
+	if v, err := strconv.Atoi(os.Getenv("C19_PAC_CASES")); err == nil && v >= 0 {
+		np = v // development aid only
+	}
+	for i := 0; i < np; i++ {
+		// spread over the run: they are served in parallel with the other configurations
+		pc := genPACCase(ctx.Rng.Sub(), i)
+		at := len(cases)
+		if n > 0 {
+			at = (i * (n + np) / np) % (len(cases) + 1)
+		}
+		cases = append(cases, nil)
+		copy(cases[at+1:], cases[at:])
+		cases[at] = pc
+	}
+	n = len(cases)
 	nf := ctx.N(240, 2400)
 	if v, err := strconv.Atoi(os.Getenv("C19_FAIL_CASES")); err == nil && v >= 0 {
 		nf = v // development aid only
